@@ -280,6 +280,8 @@ class Output(BaseOutput):
         # File finished?
         if self.local_record_count == self.local_num_records:
             self.write_particle_variables(state)
+            # Number of particles released so far (a warm start continues from it)
+            self.nc.particles_released = int(state.npid)
             self.nc.close()
             # New file?
             if self.record_count < self.num_records:
